@@ -14,14 +14,17 @@ Inductive vtree :=
      (ports : list (string * option Q))
      (children : list vtree)
      (ok : bool)    (* false: the reading demands an error (e.g. a resource type a repetition cannot carry) *)
-     (weight : option Q).  (* sum of the repetition sequence over i < count (1 when the node is not repeated) *)
+     (weight : option Q)   (* sum of the repetition sequence over i < count (1 when the node is not repeated) *)
+     (mism : option bool). (* C06: does an incoming integer size contradict what this node declares for the port?
+                              None = not determined at this point (undefined or non-integer values) *)
 
-Definition vt_name t := match t with VT n _ _ _ _ _ => n end.
-Definition vt_resources t := match t with VT _ r _ _ _ _ => r end.
-Definition vt_ports t := match t with VT _ _ p _ _ _ => p end.
-Definition vt_children t := match t with VT _ _ _ c _ _ => c end.
-Definition vt_ok t := match t with VT _ _ _ _ o _ => o end.
-Definition vt_weight t := match t with VT _ _ _ _ _ w => w end.
+Definition vt_name t := match t with VT n _ _ _ _ _ _ => n end.
+Definition vt_resources t := match t with VT _ r _ _ _ _ _ => r end.
+Definition vt_ports t := match t with VT _ _ p _ _ _ _ => p end.
+Definition vt_children t := match t with VT _ _ _ c _ _ _ => c end.
+Definition vt_ok t := match t with VT _ _ _ _ o _ _ => o end.
+Definition vt_weight t := match t with VT _ _ _ _ _ w _ => w end.
+Definition vt_mism t := match t with VT _ _ _ _ _ _ m => m end.
 
 Definition scope := list (string * option Q).
 
@@ -107,7 +110,7 @@ Section Den.
            (W : list (string * option Q))                (* sizes of the incoming wires, per input/through port *)
     : vtree :=
     match fuel with
-    | O => VT (rname r) [] [] [] false None
+    | O => VT (rname r) [] [] [] false None None
     | S f =>
         match r with
         | Routine name type ips locals links ports resources conns rep constraints children =>
@@ -239,7 +242,32 @@ Section Den.
                           | None => Some 1
                           | Some rp => rep_sum_v (rep_seq rp) ev2 ev2_upd (Some 1) (rep_count rp)
                           end in
-            VT name (fst res_ok) (my_in ++ outs)%list kids (snd res_ok && forallb vt_ok kids) weight
+            (* C06: incoming size vs declaration, for every input/through port of a non-root node *)
+            let int_pair (a b : option Q) : option bool :=
+                match a, b with
+                | Some x, Some y => if is_int x && is_int y then Some (negb (Qeq_bool x y)) else None
+                | _, _ => None
+                end in
+            let port_checks : list (option bool) :=
+                if is_root then []
+                else
+                  snd (fold_left
+                         (fun (st : list (string * string) * list (option bool)) p =>
+                            let w := opt_join (lookup (p_name p) W) in
+                            match p_size p with
+                            | ESym s =>
+                                if String.eqb s (hash_name (p_name p)) then st
+                                else match lookup s (fst st) with
+                                     | None => ((fst st ++ [(s, p_name p)])%list, snd st)       (* first port with this symbol: defines it *)
+                                     | Some first => (fst st, (snd st ++ [int_pair w (opt_join (lookup first W))])%list)
+                                     end
+                            | sz => (fst st, (snd st ++ [int_pair w (eval_in rho sc1 false sz)])%list)
+                            end) (sort_ports non_out) ([], [])) in
+            let mism : option bool :=
+                if existsb (fun c => match c with Some true => true | _ => false end) port_checks then Some true
+                else if forallb (fun c => match c with Some false => true | _ => false end) port_checks then Some false
+                     else None in
+            VT name (fst res_ok) (my_in ++ outs)%list kids (snd res_ok && forallb vt_ok kids) weight mism
         end
     end.
 End Den.
@@ -287,4 +315,18 @@ Definition spec_model (r : routine) (pts : list (list (string * Q))) : list nat 
   match compile_routine r with
   | Ok m => spec_compile r (IOk m) false pts
   | _ => []
+  end.
+
+
+(* C06 on the whole tree: Some true = some port is contradicted; Some false = every declaration agrees;
+   None = cannot tell at this point *)
+Fixpoint any_mismatch (fuel : nat) (v : vtree) : option bool :=
+  match fuel with
+  | O => None
+  | S f =>
+      let ks := map (any_mismatch f) (vt_children v) in
+      let all := vt_mism v :: ks in
+      if existsb (fun c => match c with Some true => true | _ => false end) all then Some true
+      else if forallb (fun c => match c with Some false => true | _ => false end) all then Some false
+           else None
   end.
